@@ -512,6 +512,12 @@ func genXW(r *Rand, tier string, emit func(string)) {
 	for c := int64(4085); c <= 4091; c++ {
 		emit(fmtXwLine(xwCfg{level: []int{0, 1, 6}[c%3], chunk: c, index: 0}, "-", []xwOp{{kind: 'W', data: r.Bytes(int(c) + 300)}}, []string{"C"}))
 	}
+	// two equal, large, incompressible writes with FlushFull between and FlushSync after: the
+	// compressor has emitted output on its own before the sync flush
+	for _, n := range []int{70000, 200000} {
+		d := r.Bytes(n)
+		emit(fmtXwLine(xwCfg{level: 6, chunk: 1 << 22, index: 0}, "-", []xwOp{{kind: 'W', data: d}, {kind: 'F', mode: 1}, {kind: 'W', data: r.Bytes(n)}, {kind: 'F', mode: 0}, {kind: 'W', data: r.Bytes(10)}}, []string{"C"}))
+	}
 	// sink faults at every position of short outputs
 	nf := 25
 	if thorough {
